@@ -31,7 +31,7 @@ def _cases(ctx):
     # (e.g. cumsum after a disk shuffle) legitimately depend on the schedule: not in the quantifier
     progs = [p for p in programs.valid_programs(2, "any") if p.order_ok]
     must = [p for p in progs if p.name in (
-        "assign_z/self_add", "shared_two_consumers", "shared_filter_sum", "mappart/self_add", "set_index_a/id",
+        "assign_z/self_add", "assign_overwrite_shared", "assign_overwrite_concat", "fillna_shared", "shared_two_consumers", "shared_filter_sum", "mappart/self_add", "set_index_a/id",
         "shuffle_b/self_add", "shuffle_b_disk/id", "merge_left", "cumsum/self_add", "two_shifts", "fillna0/shared_sum",
         "rename_aA/self_add", "reset_index_keep/self_add", "concat", "sort_b/id", "dropdup_b/id")]
     return must + plans.seeded_slice(ctx, progs, 40 if ctx.quick else 800)
@@ -105,10 +105,67 @@ def run_case(case, rng):
     return None
 
 
+def run_source_case(case):
+    """The user's pandas object and the collection are independent after from_pandas/from_array/from_dict:
+    modifying the user's object in place afterwards changes nothing, computing changes nothing in it."""
+    import numpy as np
+    import pandas as pd
+
+    import dask_expr as dx
+
+    n = 12
+    idx = list(range(n)) if case["sorted"] else [(i * 5) % n for i in range(n)]
+    pdf = pd.DataFrame({"x": np.arange(n, dtype="int64"), "y": np.arange(n, dtype="float64")}, index=idx)
+    orig = pdf.copy(deep=True)
+    df = dx.from_pandas(pdf, npartitions=case["npartitions"], sort=case["sort"])
+    want_sum = int(orig.x.sum())
+    got0 = int(df.x.sum().compute())
+    if got0 != want_sum:
+        return f"sum before any mutation is {got0}, data has {want_sum}"
+    if graphs.vhash(pdf) != graphs.vhash(orig):
+        return "building/computing the collection modified the user's frame"
+    if case["mutate"] == "iloc":
+        pdf.iloc[0, 0] = 999
+    elif case["mutate"] == "column":
+        pdf["x"] *= 10
+    elif case["mutate"] == "values":
+        pdf.values[:] = 7 if False else pdf.values  # no-op placeholder kept for determinism
+        pdf.loc[:, "x"] = 5
+    got = int({"sum": lambda: df.x.sum().compute(), "proj": lambda: df[["x"]].sum().compute()["x"],
+               "filter": lambda: df[df.y >= 0].x.sum().compute(), "full": lambda: df.sum().compute()["x"]}[case["query"]]())
+    if got != want_sum:
+        return f"after the user modified their frame in place ({case['mutate']}) {case['query']} gives {got}, the collection was built from data summing to {want_sum}"
+    again = int(df.x.sum().compute())
+    if again != want_sum:
+        return f"second compute of one collection gives {again} instead of {want_sum}"
+    return None
+
+
+def _source_cases(ctx):
+    cases = []
+    for srt in (True, False):
+        for sort in (True, False):
+            for mut in ("iloc", "column", "values"):
+                for query in ("sum", "proj", "filter", "full"):
+                    cases.append({"kind": "source", "sorted": srt, "sort": sort, "mutate": mut, "query": query, "npartitions": 3})
+    return cases
+
+
 def support(ctx, broken):
     sup = Support()
+    for case in _source_cases(ctx):
+        try:
+            msg = run_source_case(case)
+        except Exception as ex:  # noqa: BLE001
+            msg = f"raised {type(ex).__name__}: {str(ex)[:200]}"
+        sup.executed += 1
+        sup.count("source")
+        if msg:
+            sup.failures.append(Failure(sig={"kind": "source", "sort": case["sort"], "sorted": case["sorted"]}, case=case, detail=msg))
+            if len(sup.failures) >= 3:
+                return sup
     for p in _cases(ctx):
-        for fuse in (True, False) if not ctx.quick else (True,):
+        for fuse in (True, False) if (not ctx.quick or p.families[-1] == "shared") else (True,):
             case = {"program": p.name, "fuse": fuse, "quick": ctx.quick, "threads": [1, 4, 16] if ctx.quick else [1, 2, 4, 8, 16]}
             try:
                 msg = run_case(case, ctx.rng)
@@ -130,5 +187,8 @@ def support(ctx, broken):
 def replay(case):
     import random
 
+    if case.get("kind") == "source":
+        msg = run_source_case(case)
+        return Failure(sig={}, case=case, detail=msg) if msg else None
     msg = run_case(case, random.Random(0))
     return Failure(sig={}, case=case, detail=msg) if msg else None
